@@ -63,11 +63,11 @@ func main() {
 	case "C02":
 		c.encodeSide(c.accepted("maps", "lists", "scalars", "byvalue", "recursive", "spellings", "random", "leaf", "ids"), n, false)
 	case "C03":
-		c.decodeSide(c.accepted("evolution", "recursive", "maps", "lists", "scalars", "byvalue", "ids", "random", "defaults"), n, false)
+		c.decodeSide(c.accepted("evolution", "evomix", "recursive", "maps", "lists", "scalars", "byvalue", "ids", "random", "defaults"), n, false)
 	case "C04":
 		c.encodeSide(all, n, true)
 	case "C05":
-		us := c.accepted("evolution", "recursive", "maps", "lists", "scalars", "byvalue", "ids", "random", "nocopy")
+		us := c.accepted("evolution", "evomix", "recursive", "maps", "lists", "scalars", "byvalue", "ids", "random", "nocopy")
 		c.malformed(us, (n+2)/3)
 		c.allocBound(c.accepted("lists", "maps")[:4])
 	case "C06":
@@ -90,7 +90,7 @@ func main() {
 		c.bigByValueStorm()
 		c.descMapOps(200 * n)
 	case "C09":
-		c.requiredFields(c.accepted("ids", "recursive", "leaf", "byvalue", "evolution", "random", "scalars", "maps"), 3*n)
+		c.requiredFields(c.accepted("ids", "recursive", "leaf", "byvalue", "evolution", "random", "scalars", "maps", "spellings"), 3*n)
 		c.poolResidue(c.accepted("ids", "recursive", "leaf", "evolution"), 150*n)
 		c.bitsetOps(40 * n)
 	case "C10":
@@ -98,7 +98,7 @@ func main() {
 		c.decodeSide(c.accepted("defaults", "byvalue", "maps", "lists"), 2*n, false)
 		c.roundTrip(c.accepted("defaults", "byvalue"), 2*n)
 	case "C11":
-		c.decodeSide(c.accepted("evolution", "recursive", "leaf", "byvalue", "random"), 3*n, true)
+		c.decodeSide(c.accepted("evolution", "evomix", "recursive", "leaf", "byvalue", "random"), 3*n, true)
 	case "C12":
 		c.resolveAll(false)
 		c.encodeSide(c.accepted("spellings"), 2*n, false)
